@@ -137,7 +137,7 @@ def search(pid, record):
             last["scenario"] = "store-search"
             last["seed"] = seed
             return last
-        if pid in ("C20", "C03"):
+        if pid == "C20":
             t = _run(binary, ["store-torn-append"])
             for line in t.stdout.splitlines():
                 if line.startswith("{"):
